@@ -285,10 +285,12 @@ func allChecksRaw() []*Check {
 				{Name: "C10.text.n3.lifo-lastsel", Pkg: "gtree", Entry: "VerifC10", N: 13, FSModel: true, Sched: "lifo-lastsel", Expect: []string{"C10.same/text", "C10.noleak", "C10.end"}},
 				{Name: "C10.text.n4.fifo-wyield", Pkg: "gtree", Entry: "VerifC10", N: 14, FSModel: true, Sched: "fifo-wyield", Expect: []string{"C10.err/text", "C10.same/text", "C10.noleak", "C10.end"}},
 				{Name: "C10.text.n4.lifo-wyield", Pkg: "gtree", Entry: "VerifC10", N: 14, FSModel: true, Sched: "lifo-wyield", Expect: []string{"C10.err/text", "C10.same/text", "C10.noleak", "C10.end"}},
+				{Name: "C10.text.n3.rnd8", Pkg: "gtree", Entry: "VerifC10", N: 13, FSModel: true, Sched: "rnd8", Expect: []string{"C10.err/text", "C10.same/text", "C10.noleak", "C10.end"}},
+				{Name: "C10.n2.rnd8", Pkg: "gtree", Entry: "VerifC10", N: 2, FSModel: true, Sched: "rnd8", Expect: []string{"C10.same/text", "C10.same/mkdir", "C10.noleak", "C10.end"}},
 				{Name: "C10.units", Pkg: "gtree", Entry: "VerifC10Units", N: 0, FSModel: true, RealParse: true, Expect: []string{"C10.err.units/same-unit", "C10.err.units/mixed-units"}},
 				gjf("C10.exists", "VerifC10Exists", 0, "C10.exists.simple", "C10.exists.err", "C10.exists.fs/partial"),
 			},
-			Bounds: "documents of N rows (all operations: quick 2, thorough 3; text only: quick 3, thorough 4) from the family: roots as list items or # headings, children indented, one optional blank/whitespace-only row at any position (also leading), one optional malformed row (no bullet, empty text, nested two levels too deep); operations text, JSON or YAML records, dry-run report with an opaque extension, walk, mkdir with an opaque extension and verify on the file-system model; the real pipeline (splitter, 10+10+10 workers per stage, errgroup collectors) runs under a deterministic cooperative scheduler: policies FIFO, LIFO, each with first-ready or last-ready select case (quick: FIFO everywhere, LIFO/last-select for N=2); for text output additionally the write-yield policies (the running goroutine goes to the back of the run queue after every Write on the output: a cooperative stand-in for preemption between printing goroutines, which is what makes a missing spreader lock visible). Byte level: two roots whose children are indented by i and j blanks, i,j in 1..4. Pre-existing root with two roots. Worker reuse: ten concrete three-level filler roots followed by a symbolic tail of 2 (quick) / 3 (thorough) rows, because blocks are handed to the ten workers of a stage in turn and per-worker state only matters from the 11th block on. NOT decided: equality under every schedule; data races.",
+			Bounds: "documents of N rows (all operations: quick 2, thorough 3; text only: quick 3, thorough 4) from the family: roots as list items or # headings, children indented, one optional blank/whitespace-only row at any position (also leading), one optional malformed row (no bullet, empty text, nested two levels too deep); operations text, JSON or YAML records, dry-run report with an opaque extension, walk, mkdir with an opaque extension and verify on the file-system model; the real pipeline (splitter, 10+10+10 workers per stage, errgroup collectors) runs under a deterministic cooperative scheduler: policies FIFO, LIFO, each with first-ready or last-ready select case (quick: FIFO everywhere, LIFO/last-select for N=2); pseudo-random schedules rnd8 (thorough); for text output additionally the write-yield policies (the running goroutine goes to the back of the run queue after every Write on the output: a cooperative stand-in for preemption between printing goroutines, which is what makes a missing spreader lock visible). Byte level: two roots whose children are indented by i and j blanks, i,j in 1..4. Pre-existing root with two roots. Worker reuse: ten concrete three-level filler roots followed by a symbolic tail of 2 (quick) / 3 (thorough) rows, because blocks are handed to the ten workers of a stage in turn and per-worker state only matters from the 11th block on. NOT decided: equality under every schedule; data races.",
 			Assume: append([]string{parseContract, pathContract, fsModel, encStub, "goroutines, channels, select, sync.WaitGroup/Mutex, context and errgroup are engine-native with Go semantics under a run-until-block scheduler (one interpreted goroutine runs at a time); every explored schedule is a legal Go schedule, the converse is not claimed"}, commonAssume...),
 		},
 		{
@@ -299,6 +301,7 @@ func allChecksRaw() []*Check {
 				gjf("C11.cancel.n1", "VerifC11Cancel", 1, "C11.cancel.returns", "C11.noleak/cancel"),
 				gjf("C11.cancel.n2", "VerifC11Cancel", 2, "C11.cancel.returns", "C11.ctxerr.only", "C11.ctxerr/precancelled", "C11.cancel.never", "C11.noleak/cancel"),
 				gjf("C11.root.n3", "VerifC11Root", 3, "C11.root.returns", "C11.root.ctxerr.only", "C11.ctxerr/precancelled-root", "C11.noleak/root"),
+				{Name: "C11.cancel.n1.rnd4", Pkg: "gtree", Entry: "VerifC11Cancel", N: 1, FSModel: true, Sched: "rnd4", Expect: []string{"C11.cancel.returns", "C11.noleak/cancel"}},
 			},
 			Thorough: []Job{
 				gjf("C11.fail.n4", "VerifC11Fail", 4, "C11.returns/parse", "C11.returns/validate", "C11.returns/write", "C11.returns/callback", "C11.returns/fs", "C11.returns/reader", "C11.reported/parse", "C11.noleak/parse", "C11.noleak/write", "C11.noleak/fs"),
@@ -309,8 +312,12 @@ func allChecksRaw() []*Check {
 				{Name: "C11.cancel.n2.lifo", Pkg: "gtree", Entry: "VerifC11Cancel", N: 2, FSModel: true, Sched: "lifo", Expect: []string{"C11.cancel.returns", "C11.noleak/cancel"}},
 				{Name: "C11.cancel.n2.fifo-lastsel", Pkg: "gtree", Entry: "VerifC11Cancel", N: 2, FSModel: true, Sched: "fifo-lastsel", Expect: []string{"C11.cancel.returns", "C11.noleak/cancel"}},
 				gjf("C11.root.n4", "VerifC11Root", 4, "C11.root.returns", "C11.root.ctxerr.only", "C11.ctxerr/precancelled-root", "C11.noleak/root"),
+				{Name: "C11.cancel.n2.rnd8", Pkg: "gtree", Entry: "VerifC11Cancel", N: 2, FSModel: true, Sched: "rnd8", Expect: []string{"C11.cancel.returns", "C11.noleak/cancel"}},
+				{Name: "C11.cancel.n1.rnd8", Pkg: "gtree", Entry: "VerifC11Cancel", N: 1, FSModel: true, Sched: "rnd8", Expect: []string{"C11.cancel.returns", "C11.noleak/cancel"}},
+				{Name: "C11.fail.n3.rnd8", Pkg: "gtree", Entry: "VerifC11Fail", N: 3, FSModel: true, Sched: "rnd8", Expect: []string{"C11.returns/parse", "C11.noleak/parse"}},
+				{Name: "C11.root.n3.rnd8", Pkg: "gtree", Entry: "VerifC11Root", N: 3, FSModel: true, Sched: "rnd8", Expect: []string{"C11.root.returns", "C11.noleak/root"}},
 			},
-			Bounds: "N root blocks (quick 3, thorough 4) of which an arbitrary subset fails, one failure stage per run: parse error, name validation error, writer refusing every write, walk callback error, mkdir with pre-existing roots, failing reader; cancellation of the caller's context at synchronisation event k (k = 0 i.e. before the call, 1..20, then every 8th up to 172, or never) for text output, walk and JSON on N=2/3 roots, and for the From-Root massive routes; a blocked main goroutine with nothing runnable is a deadlock (call never returns); verifQuiesce runs everything runnable after the return and counts goroutines still alive. Policies FIFO (all), LIFO and last-ready select (thorough). NOT decided: arbitrary schedules; the data-race clause (no memory model: the unsynchronised Parser.isSharpRoot write named in the anchors cannot be decided here - since the D7 repair each block has its own parser, so the field is no longer shared).",
+			Bounds: "N root blocks (quick 3, thorough 4) of which an arbitrary subset fails, one failure stage per run: parse error, name validation error, writer refusing every write, walk callback error, mkdir with pre-existing roots, failing reader; cancellation of the caller's context at synchronisation event k (k = 0 i.e. before the call, 1..20, then every 8th up to 172, or never) for text output, walk and JSON on N=2/3 roots, and for the From-Root massive routes; a blocked main goroutine with nothing runnable is a deadlock (call never returns); verifQuiesce runs everything runnable after the return and counts goroutines still alive. Policies FIFO (all), LIFO and last-ready select (thorough), pseudo-random schedules (rndK: run-queue pick and select rotation are a deterministic function of a seed in 0..K-1 that is a case-split symbol of the path; K=4 quick on the one-root cancel job, K=8 thorough). NOT decided: arbitrary schedules; the data-race clause (no memory model: the unsynchronised Parser.isSharpRoot write named in the anchors cannot be decided here - since the D7 repair each block has its own parser, so the field is no longer shared).",
 			Assume: append([]string{parseContract, pathContract, fsModel, "engine-native goroutines/channels/select/sync/context/errgroup under a deterministic cooperative scheduler; every explored schedule is legal, not every legal schedule is explored"}, commonAssume...),
 		},
 		{
